@@ -111,7 +111,9 @@ def scripts(draw, tier):
             c["vals"] = [b0_ * r_ ** i_ + 1.0 for i_ in range(Lg_)]
             if c.get("ds"):
                 c["ds"] = (c["ds"] * Lg_)[:Lg_]
-            c.update(patience=p_, pe=1, ps=1, rounds=1, family="geometric", stopper_first=False, abort_between=False, se=c["se"])
+            # (stopper period 1, or = the number of evaluations before the clear: then the stopper's last check before the clear saw exactly as
+            # many evaluations as its next check after it)
+            c.update(patience=p_, pe=1, ps=draw(st.sampled_from([1, m_, m_])), rounds=1, family="geometric", stopper_first=False, abort_between=False, se=1, clear_at=1 + m_)
             c["tol_near"] = {"j": 2 * m_ - 1 - p_, "sign": 1, "delta": 1e-3}
     c["second_same_quantity"] = draw(st.booleans())  # another stopper on the SAME evaluator (other quantity, other patience, tolerance 0: never fires)
     return c
